@@ -304,7 +304,8 @@ _C20_TABLE_T = [('drivers/c01.cpp', list(range(15)), [], [])] + _C20_TABLE_Q[1:7
                 ('drivers/c04.cpp', None, [], []), ('drivers/c08.cpp', None, [], ['-DC08_HAVE_INFINITEPERSPECTIVE_LH_RH']), ('drivers/c09.cpp', None, [], ['-DC09_RECOMPOSE_DOUBLE']), ('drivers/c10.cpp', None, [], [])]
 
 _C17_FLAGS = ['-DC17_HAVE_ALIGNED_UVEC2_SWIZZLE', '-DC17_HAVE_ALIGNED_VEC2_3LETTER', '-DC17_HAVE_VEC4_SSSV1']
-_C20_ALIGNED_Q = [('drivers/c02.cpp', [1], [], []), ('drivers/c12.cpp', None, [], []), ('drivers/c13.cpp', None, [], []), ('drivers/c06.cpp', None, [], [])]
+_C20_ALIGNED_Q = [('drivers/c02.cpp', [1], [], []), ('drivers/c12.cpp', None, [], []), ('drivers/c13.cpp', None, [], []), ('drivers/c06.cpp', None, [], []), ('drivers/c05.cpp', None, [], []), ('drivers/c18.cpp', None, [], [])]   # c05/c18: the intrinsics-only integer code paths
+_C20_WXYZ = [('drivers/c04.cpp', None, [], []), ('drivers/c13.cpp', None, [], []), ('drivers/c09.cpp', None, [], ['-DC09_RECOMPOSE_DOUBLE'])]   # quaternion storage order switched: indexed component access
 _C20_ALIGNED_T = _C20_ALIGNED_Q + [('drivers/c02.cpp', [0, 2], [], []), ('drivers/c04.cpp', None, [], []), ('drivers/c09.cpp', None, [], ['-DC09_RECOMPOSE_DOUBLE']), ('drivers/c10.cpp', None, [], []), ('drivers/c19.cpp', None, [], []), ('drivers/c08.cpp', None, [], ['-DC08_HAVE_INFINITEPERSPECTIVE_LH_RH'])]
 
 PROPS = {
@@ -324,9 +325,9 @@ PROPS = {
    text='(b) inside each build (-msse2 ... -mavx2 -mfma, both quaternion layouts, g++ and clang++) every operation that has or routes through an Aligned=true specialisation is run on aligned_{highp,mediump,lowp} and packed operands: identical values for integer/bitwise/comparison/selection/conversion/rounding/single-rounding operations, c.u.sum|terms| for multi-term expressions, 2^-11 relative for lowp reciprocal/rsqrt kernels, identical branch decisions for refract/faceforward/==. Aligned vec3 operands are produced through every API-reachable construction path so that the hidden fourth lane is exercised. (a) the packed path of every ISA build is compared with the GLM_FORCE_PURE build by per-operation observation digests.',
    rule='SPEC^n products, EDGE lattices for unary ops, {-1,0,1,2}^8 vector grids, all {0,1}^16 matrix patterns x 3 variants, unit-vector x eta grids incl. the critical ratio and its float neighbours; 14 parts x ISA configurations.'),
  'C20': dict(run=run_sanitize, replay=replay_sanitize, level='exploration', src='drivers/c01.cpp', table_quick=_C20_TABLE_Q, table_thorough=_C20_TABLE_T,
-   configs_quick=['ubsan', 'ubsan_sse2_defaligned', 'ubsan_swizzle_intr'], configs_thorough=['ubsan', 'ubsan_avx2', 'ubsan_sse2_defaligned', 'ubsan_avx2_defaligned', 'ubsan_swizzle_intr'], cap_quick=20000, cap_thorough=200000,
-   table_by_config_quick={'ubsan_sse2_defaligned': _C20_ALIGNED_Q, 'ubsan_swizzle_intr': [('drivers/c17.cpp', [7, 9, 11, 16], [], _C17_FLAGS)]},
-   table_by_config_thorough={'ubsan_sse2_defaligned': _C20_ALIGNED_T, 'ubsan_avx2_defaligned': _C20_ALIGNED_T, 'ubsan_swizzle_intr': [('drivers/c17.cpp', list(range(19)), [], _C17_FLAGS)]},
+   configs_quick=['ubsan', 'ubsan_sse2_defaligned', 'ubsan_swizzle_intr', 'ubsan_wxyz'], configs_thorough=['ubsan', 'ubsan_avx2', 'ubsan_sse2_defaligned', 'ubsan_avx2_defaligned', 'ubsan_swizzle_intr', 'ubsan_wxyz'], cap_quick=20000, cap_thorough=200000,
+   table_by_config_quick={'ubsan_sse2_defaligned': _C20_ALIGNED_Q, 'ubsan_swizzle_intr': [('drivers/c17.cpp', [7, 9, 11, 16], [], _C17_FLAGS)], 'ubsan_wxyz': _C20_WXYZ},
+   table_by_config_thorough={'ubsan_sse2_defaligned': _C20_ALIGNED_T, 'ubsan_avx2_defaligned': _C20_ALIGNED_T, 'ubsan_swizzle_intr': [('drivers/c17.cpp', list(range(19)), [], _C17_FLAGS)], 'ubsan_wxyz': _C20_WXYZ},
    technique='exhaustive enumeration of the other properties\' input domains (restricted by each function\'s documented precondition) through clang UndefinedBehaviorSanitizer + AddressSanitizer instrumented builds of the same drivers; the sanitizer runtime is the oracle and its report hook attributes every report to the (operation, input) being evaluated',
    text='The drivers of the other properties are rebuilt with -fsanitize=undefined,float-cast-overflow,address -fsanitize-recover=all and their domains are enumerated again (domains larger than the cap on the sub-lattice of every s-th index); the weak hooks __ubsan_on_report / __asan_on_error record kind, file, line and the current (op, input), so every distinct undefined operation inside a glm/ source file within a documented domain becomes a replayable violation. Known findings are keyed by (file, line, kind). Sanitizer builds also with aligned SIMD types (SSE2, AVX2) and with operator swizzles, where the vector under test ends an exactly-sized heap block so that any access past the object is reported.',
    rule='operation table x documented-precondition filter of each driver (out-of-domain inputs are skipped before GLM is called) x sanitizer configurations {clang pure, clang AVX2 in thorough}; evaluations are instrumented executions.'),
